@@ -8,7 +8,8 @@ From Common Require Import Bytes Blake2b.
 From Trie Require Import Nibbles Node Encode Spec.
 From TrieCodec Require Codec View Db ProofsDb.
 From Trie Require Sem InsertProofs.
-From C06 Require Import Model MapSem Proofs Gen Lookup LookupProofs Bridge BridgeProofs.
+From TrieCodec Require ProofsWrite.
+From C06 Require Import Model MapSem Proofs Gen Lookup LookupProofs Bridge BridgeProofs Commit CommitProofs.
 
 (* Hash() after any history is the spec root of the last-write-wins map of that history. *)
 Theorem C06_root_spec :
@@ -81,6 +82,50 @@ Theorem C06_reopen_end_to_end :
   end.
 Proof. exact reopen_end_to_end. Qed.
 Print Assumptions C06_reopen_end_to_end.
+
+(* ---- commit (Commit.v: a model of TrieDB.commit / commitChild on the node database) ----
+   The node storage at commit time is a tree of NEW nodes (encoded and written by commit, with their
+   new hashed values) and OLD subtrees / old hashed values (only referenced by hash); commit first
+   deletes the death row, then Puts.  If what commit does not write is in the database and survives
+   the pruning, and the needed bindings are consistent (no two different contents under one key),
+   then after commit the database holds EVERY binding of the denoted trie — the hypothesis of
+   C06_reopen_lookup / C06_reopen_end_to_end — whatever is on the death row: a node or value that is
+   written again under a key on the death row is not lost. *)
+Theorem C06_commit_writes :
+  forall (H : list byte -> list byte) (d : Db.db) (death_row : list (list byte)) (m : mtree),
+  ProofsDb.has (db_dels d death_row) (commit_olds H m) -> ProofsWrite.compat (tneeds_root H (mer m)) ->
+  ProofsDb.has (commit H d death_row m) (tneeds_root H (mer m)).
+Proof. exact commit_has. Qed.
+Print Assumptions C06_commit_writes.
+
+(* ... and a fresh instance opened at the committed root reads the committed trie, for every key *)
+Theorem C06_commit_then_reopen :
+  forall (H : list byte -> list byte),
+  (forall x, length (H x) = 32%nat) -> (forall x, Codec.h256_of (H x) = H x) ->
+  forall (st : bool * bool) (d : Db.db) (death_row : list (list byte)) (m : mtree) (key : list byte),
+  View.wf_node (mer m) = true ->
+  ProofsDb.has (db_dels d death_row) (commit_olds H m) -> ProofsWrite.compat (tneeds_root H (mer m)) ->
+  tget st (commit H d death_row m) (H (Codec.encode H (mer m))) key
+  = Db.lookup (mer m) (Codec.nibbles_of_bytes key).
+Proof. exact commit_then_reopen. Qed.
+Print Assumptions C06_commit_then_reopen.
+
+(* the order matters: pruning the death row AFTER the Puts (the change of seeded defect C06-m2) loses
+   a leaf that was deleted and re-inserted with the same value since the last commit; the order of
+   the code keeps it (non-vacuity of the two theorems above on the same state) *)
+Theorem C06_commit_late_prune_refuted :
+  Bridge.has_b (commit_late_prune blake2b_256 w_db w_death_row w_leaf) w_needs = false
+  /\ tget (true, true) (commit_late_prune blake2b_256 w_db w_death_row w_leaf)
+          (Codec.root_hash blake2b_256 (mer w_leaf)) [n2b 18] = None.
+Proof. exact late_prune_loses_recreated. Qed.
+Print Assumptions C06_commit_late_prune_refuted.
+
+Example C06_commit_nonvacuous :
+  length w_needs = 2%nat
+  /\ Bridge.has_b (commit blake2b_256 w_db w_death_row w_leaf) w_needs = true
+  /\ tget (true, true) (commit blake2b_256 w_db w_death_row w_leaf)
+          (Codec.root_hash blake2b_256 (mer w_leaf)) [n2b 18] = Some w_v40.
+Proof. exact commit_keeps_recreated. Qed.
 
 Example C06_reopen_nonvacuous :
   match Bridge.committed V1 demo_map with
